@@ -294,11 +294,11 @@ EXTRA_GENERATORS = []
 
 def main():
     try:
-        # optional extension modules next to this file: gen_*.py with a function `generate() -> list[str]`
+        # optional extension modules next to this file: genx_*.py with a function `generate() -> list[str]`
         here = os.path.dirname(os.path.abspath(__file__))
         sys.path.insert(0, here)
         for f in sorted(os.listdir(here)):
-            if f.startswith("gen_") and f.endswith(".py") and f != "gen_model.py":
+            if f.startswith("genx_") and f.endswith(".py"):
                 mod = __import__(f[:-3])
                 EXTRA_GENERATORS.append(mod.generate)
         text = generate()
